@@ -5,7 +5,8 @@
    new voter list differs from the current one by at most one voter; messages may be lost,
    duplicated, reordered, delayed; every node has a durable log prefix, leaders append without
    flushing and flush before committing, followers flush before acknowledging, any node may crash
-   and restart at any time losing its unflushed tail and volatile state).  Proofs: Abs/CfgQuorum.v (adjacent majorities meet),
+   and restart at any time losing its unflushed tail and volatile state; a follower may install a
+   snapshot standing for a committed prefix of a leader's logical log, step SInstall).  Proofs: Abs/CfgQuorum.v (adjacent majorities meet),
    Abs/CfgInvT.v (from the state facts to leader completeness and election safety), the
    preservation lemmas Abs/CfgInvStep*.v, Abs/CfgInvAll.v.  Concrete runs: Abs/CfgExample.v,
    Abs/CfgRefute.v (the variant without the "committed in its own term" guard is unsafe). *)
